@@ -732,11 +732,19 @@ fn gen17(rng: &mut Rng) -> Scen17 {
                         crate::model::Name(nm.0[k..].to_vec())
                     }
                 };
+                // some renames are made to fail part-way through the packet (a rewritten name
+                // would exceed 255 bytes): state left behind by a failed call is state too
+                let target = if rng.chance(1, 3) {
+                    let t = *rng.pick(&[200usize, 230, 250, 255]);
+                    gen::gen_name_of_len(rng, t).wire()
+                } else {
+                    gen::gen_ldh_name(rng).wire()
+                };
                 Call17::Rename {
                     packet: p,
-                    target: gen::gen_ldh_name(rng).wire(),
+                    target,
                     source: src.wire(),
-                    suffix: rng.bool(),
+                    suffix: rng.chance(2, 3),
                 }
             }
             9 => Call17::FromString(gen::gen_rr_text(rng)),
